@@ -77,6 +77,7 @@ type Engine struct {
 	OverflowPaths int
 	Harness       string
 	TraceOut      map[string][]string // selftest: the trace of each finished path
+	Deadline      time.Time           // wall-clock budget of this harness (zero: none)
 	cexCount      map[string]int
 	PrecByLabel   map[string]int
 	Samples       []string
@@ -280,6 +281,15 @@ func (e *Engine) Run(fn *ssa.Function, name string) {
 							mu.Unlock()
 							cond.Broadcast()
 						}
+					}
+					if !e.Deadline.IsZero() && time.Now().After(e.Deadline) {
+						mu.Lock()
+						stopped = true
+						mu.Unlock()
+						e.mu.Lock()
+						e.Inconcl["time budget of the harness exceeded (exploration stopped)"]++
+						e.mu.Unlock()
+						s = nil
 					}
 					e.mu.Lock()
 					over := e.Cfg.MaxPaths > 0 && e.Paths > e.Cfg.MaxPaths
